@@ -90,8 +90,45 @@ func markedVariants(v cty.Value, rootSets [][]string, nested bool) []cty.Value {
 			}
 			out = append(out, nv, nv.Mark(markM1))
 		}
+		// two nested positions with different marks below an unmarked top level (marks
+		// gathered from several members must be merged into a set of their own)
+		var marked []Pos
+		for _, p := range allPositions(v, 2) {
+			if len(p) == 0 || passesThroughSet(v, p) {
+				continue
+			}
+			marked = append(marked, p)
+		}
+		for i := 0; i < len(marked) && i < 3; i++ {
+			for j := i + 1; j < len(marked) && j < 4; j++ {
+				if isPrefixPos(marked[i], marked[j]) || isPrefixPos(marked[j], marked[i]) {
+					continue
+				}
+				nv, ok := replaceAt(v, marked[i], getAt(v, marked[i]).Mark(markM3))
+				if !ok {
+					continue
+				}
+				nv2, ok := replaceAt(nv, marked[j], getAt(nv, marked[j]).Mark(markM2))
+				if !ok {
+					continue
+				}
+				out = append(out, nv2)
+			}
+		}
 	}
 	return out
+}
+
+func isPrefixPos(a, b Pos) bool {
+	if len(a) > len(b) {
+		return false
+	}
+	for i := range a {
+		if a[i] != b[i] {
+			return false
+		}
+	}
+	return true
 }
 
 func passesThroughSet(v cty.Value, p Pos) bool {
@@ -120,7 +157,12 @@ func c04Compare(u *U, site string, desc func() string, shape string, inputs []ct
 		return
 	}
 	u.Eval(2)
+	before := argsStr(inputs)
 	rm, em, pm := call(inputs)
+	if after := argsStr(inputs); after != before {
+		// the operands are values: the marks they carry, at every depth, are theirs for good
+		u.Violation(site+".operand-marks-changed", shape, fmt.Sprintf("%s: the call changed its own operands (marks of operands are never lost or invented by using them): before %s, after %s", desc(), before, after))
+	}
 	stripped := stripAll(inputs)
 	rs, es, ps := call(stripped)
 	okM, okS := em == nil && pm == "", es == nil && ps == ""
